@@ -871,9 +871,17 @@ class Interp(Engine):
             if len(a) > 3:
                 atol = a[3]
 
-            def f(x, y):
-                return s.cmp('<=', s.absv(s.arith('-', x, y)), s.arith('+', atol, s.arith('*', rtol, s.absv(y))))
+            def f(x, y, at=None, rt=None):
+                return s.cmp('<=', s.absv(s.arith('-', x, y)), s.arith('+', atol if at is None else at, s.arith('*', rtol if rt is None else rt, s.absv(y))))
             x, y = s.asarr(a[0]), s.asarr(a[1])
+            if isinstance(atol, (Vec, tuple, list)) or isinstance(rtol, (Vec, tuple, list)):
+                # per-element tolerances (numpy broadcasts them): 1-d operands of one length only
+                ln = lambda v: len(v.elems) if isinstance(v, Vec) else (len(v) if isinstance(v, (tuple, list)) else None)
+                el = lambda v, j: (v.elems[j] if isinstance(v, Vec) else (v[j] if isinstance(v, (tuple, list)) else v))
+                L = [ln(v) for v in (x, y, atol, rtol) if ln(v) is not None]
+                if not L or len(set(L)) != 1 or any(not isinstance(v, (Vec, tuple, list, int, float, Sym)) and type(v).__name__ != 'Fraction' for v in (x, y, atol, rtol)):
+                    raise Unsupported('np.isclose with array-valued tolerances on these operands')
+                return Vec([f(el(x, j), el(y, j), el(atol, j), el(rtol, j)) for j in range(L[0])], 'bool')
             h = s.ext('map2', f, x, y, 'bool')
             if h is not NotImplemented:
                 return h
